@@ -149,26 +149,40 @@ def translate(path):
                 return "AAssoc %s %s %s" % (q(qp["self_type"]["generic"]), q(""), q(qp["name"]))
         return None
     synth = {}
+    explicit = []
     for it in idx.values():
         inner = it.get("inner", {})
-        if "impl" in inner and inner["impl"].get("is_synthetic"):
+        # the impl rustc synthesized - or an impl somebody WROTE (`unsafe impl Send for ..`, `impl !Sync for ..`): a hand-written impl replaces the
+        # synthesized one in rustdoc's output and is held to the same standard (its bounds must be exactly the structural ones)
+        if "impl" in inner:
             im = inner["impl"]
             tr = (im.get("trait") or {}).get("path")
             if tr in ("Send", "Sync") and "resolved_path" in im["for"] and im["for"]["resolved_path"]["id"] in local:
                 preds = []
                 ok = True
-                for p in im["generics"]["where_predicates"]:
-                    bp = p.get("bound_predicate")
-                    if not bp:
-                        continue
-                    a = show_ty(bp["type"])
-                    for b in bp["bounds"]:
+
+                def bounds_of(a, bounds):
+                    nonlocal ok
+                    for b in bounds or []:
                         tp = (b.get("trait_bound") or {}).get("trait", {}).get("path")
                         if tp in ("Send", "Sync") and a:
                             preds.append("(%s, %s)" % (a, "true" if tp == "Send" else "false"))
                         elif tp in ("Send", "Sync"):
                             ok = False
-                synth[(im["for"]["resolved_path"]["id"], tr)] = (bool(im.get("is_negative")), preds, ok)
+                for p in im["generics"]["where_predicates"]:
+                    bp = p.get("bound_predicate")
+                    if bp:
+                        bounds_of(show_ty(bp["type"]), bp["bounds"])
+                for gp in im["generics"].get("params", []):       # impl<S: Stream + Send> ...
+                    kind = gp.get("kind", {})
+                    if "type" in kind:
+                        bounds_of(show_ty({"generic": gp["name"]}), kind["type"].get("bounds"))
+                key = (im["for"]["resolved_path"]["id"], tr)
+                if key in synth and not im.get("is_synthetic"):
+                    pass      # keep the first; two impls of one auto trait cannot coexist anyway
+                synth[key] = (bool(im.get("is_negative")), preds, ok)
+                if not im.get("is_synthetic"):
+                    explicit.append((im["for"]["resolved_path"].get("path") or im["for"]["resolved_path"].get("name"), tr))
     out = ["(* GENERATED by tools/autotraits.py from the rustdoc JSON of the repository's current tree - do not edit, not committed. *)",
            "From Coq Require Import List String Bool.", "Import ListNotations.", "Require Import AutoTraits.", "Open Scope string_scope.", "Open Scope list_scope.", ""]
     entries = []
@@ -186,6 +200,9 @@ def translate(path):
             entries.append("mk_entry %d %s %s T%d %s [%s] %s" % (ordn, q(name), flag, i, "true" if neg else "false", "; ".join(preds), "true" if ok else "false"))
     out.append("")
     out.append("Definition crate_types : list entry :=\n  [ " + ";\n    ".join(entries) + " ].")
+    out.append("(* the number of struct / enum / union types of the crate: every one of them must have a Send and a Sync entry above *)")
+    out.append("Definition n_types : nat := %d." % len(local))
+    out.append("(* impls of Send / Sync written by hand in the source: %s *)" % (", ".join("%s for %s" % (t, n) for (n, t) in explicit) or "none"))
     return "\n".join(out) + "\n", info, len(entries)
 
 
